@@ -25,7 +25,7 @@ Dd == [t |-> "dict", addr |-> 2]
 
 \* keys: 0 1 1.0 1.7 -1 -1.5 5 "1" "a" True None  (negative numbers are unary-minus results: plain Decimal)
 Keys == << N(0), N(1), D(0, <<1, 0>>, -1, TRUE), D(0, <<1, 7>>, -1, TRUE), D(1, <<1>>, 0, FALSE), D(1, <<1, 5>>, -1, FALSE),
-           N(5), S(<<49>>), S(<<97>>), Bool(TRUE), None >>
+           N(5), S(<<49>>), S(<<97>>), Bool(TRUE), None, D(1, <<3>>, 0, FALSE), D(1, <<4>>, 0, FALSE) >>
 Vals == << N(7), S(<<122>>) >>
 
 Ops == [f : {"read", "del", "get", "in"}, c : {"L", "D"}, k : 1..Len(Keys), v : {1}]
@@ -103,7 +103,7 @@ PopFailsPE(o, r, h2) == (o.f \in {"pop", "popi"} /\ o.c = "L" /\ ~Ok(r) /\ Keys[
 \* decimal indices address the truncated position, negative ones count from the end
 IndexLaw(o, r, h2) == (o.f = "read" /\ o.c = "L" /\ Ok(r) /\ Keys[o.k].t = "dec") =>
                LET k == Keys[o.k]  n == Len(h[1].items)
-                   i == IF k.sign = 0 THEN k.digs[1] ELSE n - 1 IN
+                   i == IF k.sign = 0 THEN k.digs[1] ELSE n - k.digs[1] IN
                r = h[1].items[i + 1]
 \* observers agree with the sequence of pairs and return new lists, not views
 Observers(o, r, h2) == o.f \in {"len", "keys", "values", "items"} /\ Ok(r) =>
